@@ -130,6 +130,7 @@ def jobs(tier):
             out.append({"name": "equiv/%s/%s/startdir" % (fmt, var), "kind": "equiv", "fmt": fmt, "variant": var, "startdir": "startdir", "tier": tier})
     for fmt in (["json", "yaml", "xml", "bson", "pickle"] if tier == "thorough" else ["bson", "json", "pickle"]):
         out.append({"name": "sizes/%s" % fmt, "kind": "sizes", "fmt": fmt})
+    out.append({"name": "law-aliased", "kind": "law-aliased"})
     for var in GROWN:
         for fmt in (b["equiv_formats"] if tier == "thorough" else ["json"]):
             out.append({"name": "equiv/%s/%s/startdir" % (fmt, var), "kind": "equiv", "fmt": fmt, "variant": var, "startdir": "startdir", "tier": tier})
@@ -143,7 +144,7 @@ def run_job(job, ctx):
             _law_pair(ctx, V.dec(single["base"]), V.dec(single["child"]))
         else:
             j = dict(single["jobparams_full"]); j["only"] = single["only"]
-            {"equiv": _equiv, "sizes": _sizes}.get(j["kind"], _paths)(j, ctx)
+            {"equiv": _equiv, "sizes": _sizes, "law-aliased": _law_aliased}.get(j["kind"], _paths)(j, ctx)
         return
     if job["kind"] == "law":
         ts = trees(job["n"], leaves=job["leaves"])
@@ -157,6 +158,8 @@ def run_job(job, ctx):
         _equiv(job, ctx)
     elif job["kind"] == "sizes":
         _sizes(job, ctx)
+    elif job["kind"] == "law-aliased":
+        _law_aliased(job, ctx)
     else:
         _paths(job, ctx)
 
@@ -186,6 +189,51 @@ def _law_pair(ctx, base, child):
         ctx.violation("C18|law|base-mutated|" + kind, "combine_trees mutated its first argument: %s -> %s" % (b0, base), case, size=len(_plain(b0) + _plain(c0)))
     if V.canon(child) != V.canon(c0):
         ctx.violation("C18|law|child-mutated|" + kind, "combine_trees mutated its second argument: %s -> %s" % (c0, child), case, size=len(_plain(b0) + _plain(c0)))
+
+
+def _aliased_bases():
+    """base trees in which one map object occurs at two places (what YAML anchors / aliases and pickle decode to)"""
+    out = []
+    for mi, mk in enumerate((lambda: {"k": 1}, lambda: {"k": {"j": 1}, "n": 2}, lambda: {})):
+        for si in range(4):
+            m = mk()
+            if si == 0:
+                base = {"a": m, "b": m}
+            elif si == 1:
+                base = {"a": m, "b": {"c": m}}
+            elif si == 2:
+                base = {"a": {"x": m, "y": m}, "b": 1}
+            else:
+                base = {"a": m, "l": [m], "b": m}
+            out.append(((mi, si), base))
+    return out
+
+
+def _law_aliased(job, ctx):
+    import cincoconfig as cc
+    only = job.get("only")
+    children = trees(2, leaves=[1, None]) + [{"a": {"k": 2}}, {"a": {"k": {"j": 2}}}, {"b": {"c": {"k": 3}}}, {"a": {"x": {"k": 4}}}, {"a": {"new": 1}}]
+    for ident, _ in _aliased_bases():
+        for ci, child in enumerate(children):
+            if only is not None and only != [list(ident), ci]:
+                continue
+            base = dict(_aliased_bases())[ident]
+            f = cc.IncludeField()
+            want = ref_merge(json.loads(json.dumps(base)), copy.deepcopy(child))       # the same tree without any sharing
+            b0 = json.loads(json.dumps(base))
+            ctx.transitions += 1
+            ctx.case(("aliased", ident, ci), "law-aliased", True)
+            case = {"kind": "law-aliased", "jobparams_full": {k: v for k, v in job.items() if k not in ("single", "only")}, "only": [list(ident), ci], "job": job["name"]}
+            try:
+                got = f.combine_trees(base, copy.deepcopy(child))
+            except Exception as exc:  # noqa
+                ctx.violation("C18|law-aliased|raises", "combine_trees(%s, %s) raised %r" % (base, child, exc), case)
+                continue
+            if V.canon(got) != V.canon(want):
+                ctx.violation("C18|law-aliased|result", "the base tree %s holds one map object at two places; combine_trees(base, %s) = %s, expected %s" % (b0, child, got, want), case)
+            if V.canon(base) != V.canon(b0):
+                ctx.violation("C18|law-aliased|base-mutated", "combine_trees mutated its first argument: %s -> %s" % (b0, base), case)
+    ctx.sample({"aliased_bases": len(_aliased_bases()), "children": len(children)})
 
 
 def _conflict_kind(b, c):
